@@ -65,6 +65,7 @@ func workerMain(args []string) {
 	work := fs.String("work", "", "")
 	sampleEvery := fs.Int("sample", 1, "")
 	replay := fs.Bool("replay", false, "")
+	bindir := fs.String("bindir", filepath.Join(verifRoot, "bin"), "directory holding the zygo CLI built from the tree under test")
 	count := fs.Bool("count", false, "print the number of cases of this property/tier/seed and exit")
 	fs.Parse(args)
 	p := core.Registry[*propID]
@@ -73,7 +74,7 @@ func workerMain(args []string) {
 		os.Exit(2)
 	}
 	if *count {
-		fmt.Println(p.NCases(&core.Ctx{Tier: *tier, Seed: *seed, Thor: *tier == "thorough", BinDir: filepath.Join(verifRoot, "bin"), Work: *work, Repo: "/repo"}))
+		fmt.Println(p.NCases(&core.Ctx{Tier: *tier, Seed: *seed, Thor: *tier == "thorough", BinDir: *bindir, Work: *work, Repo: "/repo"}))
 		return
 	}
 	runtime.GOMAXPROCS(2)
@@ -88,7 +89,7 @@ func workerMain(args []string) {
 		os.Exit(2)
 	}
 	j := &journal{f: f, w: bufio.NewWriter(f)}
-	ctx := &core.Ctx{Tier: *tier, Seed: *seed, Thor: *tier == "thorough", BinDir: filepath.Join(verifRoot, "bin"),
+	ctx := &core.Ctx{Tier: *tier, Seed: *seed, Thor: *tier == "thorough", BinDir: *bindir,
 		Work: *work, Repo: "/repo", Replay: *replay}
 
 	var cur atomic.Int64
@@ -272,7 +273,24 @@ func parentMain(args []string) int {
 	work := filepath.Join(verifRoot, ".work", fmt.Sprintf("%s-%d", id, os.Getpid()))
 	os.MkdirAll(work, 0755)
 	defer os.RemoveAll(work)
-	ctx := &core.Ctx{Tier: tier, Seed: seed, Thor: tier == "thorough", BinDir: filepath.Join(verifRoot, "bin"), Work: work, Repo: "/repo"}
+	// The run works from private copies of the binaries ./run has just built, so that a
+	// later rebuild of bin/ (another check started on another tree) cannot change the code
+	// under test in the middle of this run.
+	bindir := filepath.Join(work, "bin")
+	os.MkdirAll(bindir, 0755)
+	for _, b := range []string{"vcheck", "zygo", "vcheck-race"} {
+		src := filepath.Join(verifRoot, "bin", b)
+		if b == "vcheck" {
+			src = self
+		}
+		if data, err := os.ReadFile(src); err == nil {
+			os.WriteFile(filepath.Join(bindir, b), data, 0755)
+		}
+	}
+	if _, err := os.Stat(filepath.Join(bindir, "vcheck")); err == nil {
+		self = filepath.Join(bindir, "vcheck")
+	}
+	ctx := &core.Ctx{Tier: tier, Seed: seed, Thor: tier == "thorough", BinDir: bindir, Work: work, Repo: "/repo"}
 
 	if len(args) >= 4 && args[2] == "--replay" {
 		return replayMain(self, p, ctx, args[3])
@@ -321,7 +339,7 @@ func parentMain(args []string) int {
 	wg.Wait()
 
 	var san map[string]interface{}
-	if raceBin := filepath.Join(verifRoot, "bin", "vcheck-race"); ctx.Thor && p.Sanitize && os.Getenv("VERIF_NO_SANITIZER") == "" {
+	if raceBin := filepath.Join(ctx.BinDir, "vcheck-race"); ctx.Thor && p.Sanitize && os.Getenv("VERIF_NO_SANITIZER") == "" {
 		san = sanitizerPass(self, raceBin, p, ctx, a)
 	}
 	return report(p, ctx, a, n, time.Since(start).Seconds(), san)
@@ -346,7 +364,7 @@ func sanitizerPass(self, raceBin string, p *core.Prop, ctx *core.Ctx, a *agg) ma
 	os.MkdirAll(sctx.Work, 0755)
 	// the case count of the other tier is asked from a fresh process (case plans are memoised per process)
 	n := 0
-	if out, err := exec.Command(self, "-worker", "-prop", p.ID, "-tier", "quick", "-seed", strconv.FormatUint(ctx.Seed, 10), "-work", sctx.Work, "-count").Output(); err == nil {
+	if out, err := exec.Command(self, "-worker", "-prop", p.ID, "-tier", "quick", "-seed", strconv.FormatUint(ctx.Seed, 10), "-work", sctx.Work, "-bindir", ctx.BinDir, "-count").Output(); err == nil {
 		ls := strings.Split(strings.TrimSpace(string(out)), "\n")
 		n, _ = strconv.Atoi(strings.TrimSpace(ls[len(ls)-1]))
 	}
@@ -501,7 +519,7 @@ func caseInput(self string, p *core.Prop, ctx *core.Ctx, i int) string {
 
 func runChild(self string, p *core.Prop, ctx *core.Ctx, from, to, sampleEvery int, jpath, wdir string, replay bool) (results []*core.Result, begun int, out string, exit int) {
 	args := []string{"-worker", "-prop", p.ID, "-tier", ctx.Tier, "-seed", strconv.FormatUint(ctx.Seed, 10),
-		"-from", strconv.Itoa(from), "-to", strconv.Itoa(to), "-journal", jpath, "-work", wdir, "-sample", strconv.Itoa(sampleEvery)}
+		"-from", strconv.Itoa(from), "-to", strconv.Itoa(to), "-journal", jpath, "-work", wdir, "-sample", strconv.Itoa(sampleEvery), "-bindir", ctx.BinDir}
 	if replay {
 		args = append(args, "-replay")
 	}
